@@ -10,6 +10,24 @@ import re
 from collections import Counter
 
 
+def _needs3(x):
+    if not isinstance(x, tuple) or not x:
+        return False
+    if x[0] in ('na', 'xstr', 'list', 'dict', 'grid'):
+        return True
+    return False
+
+
+def concrete_ver(n):
+    """A grid whose version the generator left open (None: 'whatever the writer picks') gets the lowest version that can
+    carry its content."""
+    if n[1] is not None:
+        return n
+    _, ver, meta, cols, rows = n
+    vals = [v for _, v in meta] + [v for _, m in cols for _, v in m] + [v for r in rows for _, v in r]
+    return ('grid', '3.0' if any(_needs3(v) for v in vals) else '2.0', meta, cols, rows)
+
+
 class RefReject(Exception):
     def __init__(self, code, pos, detail=''):
         Exception.__init__(self, '%s at %d %s' % (code, pos, detail))
@@ -742,6 +760,7 @@ class Writer(object):
         return ' '.join(out)
 
     def grid(self, n, final_nl=True):
+        n = concrete_ver(n)
         _, ver, meta, cols, rows = n
         nl = self.nl
         outer_v3 = getattr(self, 'v3', False)
